@@ -527,4 +527,96 @@ theorem recvd_sublist_dispatched {c : Cfg} (h1w : c.nworkers = 1) {s : St} (hw :
           · left; exact hv
         exact (hrc.trans ((h3 k).2 this)).trans (List.sublist_append_left _ _)
 
+/-! ### the log: the part older than the first `stop` fits one order -/
+
+theorem liveLog_of_not_stopped : ∀ {l : List Ev}, stopped l = false → liveLog l = l
+  | [], _ => rfl
+  | e :: l, h => by
+    simp only [stopped, List.contains_cons, Bool.or_eq_false_iff] at h
+    have h2 : l.contains Ev.stop = false := h.2
+    have h1 : (e == Ev.stop) = false := by
+      have := h.1
+      cases he : (e == Ev.stop) with
+      | false => rfl
+      | true =>
+        have : (Ev.stop == e) = true := by
+          rw [beq_iff_eq] at he ⊢; exact he.symm
+        simp_all
+    have h2' : Ev.stop ∉ l := by simpa using h2
+    have h1' : e ≠ Ev.stop := by simpa using h1
+    simp [liveLog, h1', h2']
+
+theorem liveLog_cons_of_stopped {e : Ev} {l : List Ev} (h : stopped l = true) : liveLog (e :: l) = liveLog l := by
+  have h' : Ev.stop ∈ l := by simpa [stopped] using h
+  simp [liveLog, h']
+
+theorem step_log_live {c : Cfg} {s s' : St} {a : Act} (h : Step c s a s') :
+    (s'.live = s.live ∧ (s'.log = s.log ∨ ∃ e, s'.log = e :: s.log)) ∨
+    (s'.live = false ∧ s'.log = Ev.stop :: s.log) := by
+  cases h <;> first
+    | exact Or.inl ⟨rfl, Or.inl rfl⟩
+    | exact Or.inl ⟨rfl, Or.inr ⟨_, rfl⟩⟩
+    | exact Or.inr ⟨rfl, rfl⟩
+
+/-- one worker: the part of the log older than the first `stop` fits one dispatch order -/
+def OrdLog (c : Cfg) (s : St) : Prop :=
+  c.nworkers = 1 → ∃ D : List Msg, D.Pairwise PubLt ∧ ∀ k, (recvs k (liveLog s.log)).Sublist D
+
+theorem ordlog_of_live {c : Cfg} {s : St} (hw : WF c s) (hli : LogInv c s) (ho : Ord1 s ∧ Ord2 s)
+    (hl : s.live = true) : OrdLog c s := by
+  intro h1w
+  have hns : stopped s.log = false := by rw [hli.live, hl]; rfl
+  refine ⟨s.dispatched, dispatched_pubLt ho.1, fun k => ?_⟩
+  rw [liveLog_of_not_stopped hns, hli.recvs k]
+  exact recvd_sublist_dispatched h1w hw ho.2 hl k
+
+theorem ordlog_reachable {c : Cfg} {s : St} (h : Reachable c s) : OrdLog c s := by
+  refine reachable_induction (OrdLog c) ?_ ?_ s h
+  · intro _; exact ⟨[], List.Pairwise.nil, fun k => by simp [init, liveLog, recvs]⟩
+  · intro s a s' hr hp hs
+    have hu := uniq_reachable hr
+    have hw := wf_reachable hr
+    have hli := loginv_reachable hr
+    have ho := ord_reachable hr
+    cases hl' : s'.live with
+    | true =>
+      exact ordlog_of_live (wf_step hw hs) (loginv_step hu hw hli hs)
+        ⟨ord1_step hu ho.1 hs, ord2_step hu ho.2 hs⟩ hl'
+    | false =>
+      intro h1w
+      obtain ⟨D, hD, hsub⟩ := hp h1w
+      refine ⟨D, hD, fun k => ?_⟩
+      rcases step_log_live hs with ⟨hlive, hlog⟩ | ⟨_, hlog⟩
+      · rcases hlog with hlog | ⟨e, hlog⟩
+        · rw [hlog]; exact hsub k
+        · have hst : stopped s.log = true := by rw [hli.live, ← hlive, hl']; rfl
+          rw [hlog, liveLog_cons_of_stopped hst]; exact hsub k
+      · cases hl : s.live with
+        | true =>
+          have hns : stopped s.log = false := by rw [hli.live, hl]; rfl
+          have : liveLog (Ev.stop :: s.log) = s.log := by
+            have h' : Ev.stop ∉ s.log := by simpa [stopped] using hns
+            simp [liveLog, h']
+          rw [hlog, this]
+          have := hsub k
+          rwa [liveLog_of_not_stopped hns] at this
+        | false =>
+          have hst : stopped s.log = true := by rw [hli.live, hl]; rfl
+          rw [hlog, liveLog_cons_of_stopped hst]; exact hsub k
+
+theorem orderOk_reachable {c : Cfg} {s : St} (h : Reachable c s) : orderOk c (liveLog s.log) = true := by
+  simp only [orderOk, Bool.or_eq_true, bne_iff_ne, ne_eq, List.all_eq_true, Bool.and_eq_true]
+  by_cases h1w : c.nworkers = 1
+  · right
+    obtain ⟨D, hD, hsub⟩ := ordlog_reachable h h1w
+    intro k _
+    refine ⟨pubOrdered_of_pairwise (hD.sublist (hsub k)), fun k' _ => ?_⟩
+    exact consistent_of_sublist (hsub k) (hsub k') (nodup_of_pubLt hD)
+  · left; exact h1w
+
+/-- the outcome predicate holds of the log of every reachable state -/
+theorem allowed_reachable {c : Cfg} (hv : Cfg.valid c) {s : St} (h : Reachable c s) : allowed c s.log = true := by
+  simp only [allowed, Bool.and_eq_true]
+  exact ⟨eventsOk_reachable hv h, orderOk_reachable h⟩
+
 end FunProofs.Broker
